@@ -11,7 +11,8 @@ use proto_vulcan::lterm::LTerm;
 use proto_vulcan::operator::conde::Conde;
 use proto_vulcan::operator::conj::{Conj, DFSConj, InferredConj};
 use proto_vulcan::operator::disj::{DFSDisj, Disj};
-use proto_vulcan::operator::{conda, condu, dfs, onceo, anyo, OperatorParam, ClosureOperatorParam};
+use proto_vulcan::operator::{conda, condu, dfs, onceo, anyo, OperatorParam, ClosureOperatorParam, ForOperatorParam};
+use proto_vulcan::operator::everyg::everyg;
 use proto_vulcan::operator::closure::Closure;
 use proto_vulcan::relation::never::never;
 use proto_vulcan::relation::always::always;
@@ -46,6 +47,8 @@ pub enum G {
     Onceo(Vec<G>),
     /// onceo with all its goals in ONE inner slice (`onceo { [g1, g2] }`); Onceo is the macro form `onceo { g1, g2 }` (one slice per goal)
     OnceoFlat(Vec<G>),
+    /// `for x in coll { body }` (C12): the body refers to the loop variable as variable number 3
+    For(Vec<A>, Box<G>),
 }
 
 impl G {
@@ -58,11 +61,40 @@ impl G {
             G::Disj(f, c) => format!("or{}({})", f, cl(c)), G::Conda(c) => format!("conda({})", cl(c)), G::Condu(c) => format!("condu({})", cl(c)),
             G::Onceo(gs) => format!("onceo({})", gs.iter().map(|g| g.show()).collect::<Vec<_>>().join(",")),
             G::OnceoFlat(gs) => format!("onceoflat({})", gs.iter().map(|g| g.show()).collect::<Vec<_>>().join(",")),
+            G::For(c, b) => format!("for<{}>({})", c.iter().map(|a| a.show()).collect::<Vec<_>>().join(";"), b.show()),
         }
     }
+    fn has_for(&self) -> bool {
+        match self {
+            G::For(..) => true,
+            G::Conj(_, gs) | G::Onceo(gs) | G::OnceoFlat(gs) => gs.iter().any(|g| g.has_for()),
+            G::Disj(_, c) | G::Conda(c) | G::Condu(c) => c.iter().any(|x| x.iter().any(|g| g.has_for())),
+            _ => false,
+        }
+    }
+    /// the body of a `for` with the loop variable (number 3) replaced by the element a
+    fn subst(&self, a: A) -> G {
+        let o = |x: &A| if *x == A::V(3) { a } else { *x };
+        let l = |gs: &Vec<G>| -> Vec<G> { gs.iter().map(|g| g.subst(a)).collect() };
+        let cl = |c: &Vec<Vec<G>>| -> Vec<Vec<G>> { c.iter().map(|x| l(x)).collect() };
+        match self {
+            G::Ne(ps) => G::Ne(ps.iter().map(|(x, y)| (o(x), o(y))).collect()),
+            G::Eq(v, k) => if *v == 3 { match a { A::K(c) => if c == *k { G::Succ } else { G::Fail }, A::V(w) => G::Eq(w, *k) } } else { G::Eq(*v, *k) },
+            G::EqV(x, y) => match (o(&A::V(*x)), o(&A::V(*y))) {
+                (A::V(p), A::V(q)) => G::EqV(p, q), (A::V(p), A::K(c)) | (A::K(c), A::V(p)) => G::Eq(p, c), (A::K(c), A::K(d)) => if c == d { G::Succ } else { G::Fail } },
+            G::Succ => G::Succ, G::Fail => G::Fail,
+            G::Conj(f, gs) => G::Conj(*f, l(gs)), G::Disj(f, c) => G::Disj(*f, cl(c)), G::Conda(c) => G::Conda(cl(c)), G::Condu(c) => G::Condu(cl(c)),
+            G::Onceo(gs) => G::Onceo(l(gs)), G::OnceoFlat(gs) => G::OnceoFlat(l(gs)),
+            G::For(c, b) => G::For(c.iter().map(|x| o(x)).collect(), b.clone()),
+        }
+    }
+    /// the goals `for` stands for: the body once per element; InferredConj::from_iter puts each new goal IN FRONT, so the
+    /// conjunction runs them in reverse order of the collection (which only the depth-first answer ORDER can see)
+    fn unrolled(c: &Vec<A>, b: &G) -> Vec<G> { c.iter().rev().map(|a| b.subst(*a)).collect() }
     fn bfs_only(&self) -> bool {
         match self {
             G::Conda(_) | G::Condu(_) | G::Onceo(_) | G::OnceoFlat(_) => true,
+            G::For(_, b) => b.bfs_only(),
             G::Conj(_, gs) => gs.iter().any(|g| g.bfs_only()),
             G::Disj(_, c) => c.iter().any(|x| x.iter().any(|g| g.bfs_only())),
             _ => false,
@@ -132,6 +164,7 @@ fn sem(g: &G, s: &Sub) -> Vec<Sub> {
         G::Conda(cs) => { for c in cs { if c.is_empty() { continue; } let h = sem(&c[0], s); if !h.is_empty() { return h.iter().flat_map(|a| sem_conj(&c[1..].to_vec(), a)).collect(); } } vec![] }
         G::Condu(cs) => { for c in cs { if c.is_empty() { continue; } let h = sem(&c[0], s); if !h.is_empty() { return sem_conj(&c[1..].to_vec(), &h[0]); } } vec![] }
         G::Onceo(gs) | G::OnceoFlat(gs) => sem_conj(gs, s).into_iter().take(1).collect(),
+        G::For(c, b) => sem_conj(&G::unrolled(c, b), s),
     }
 }
 fn sem_conj(gs: &[G], s: &Sub) -> Vec<Sub> {
@@ -149,6 +182,7 @@ fn ambiguous(g: &G, s: &Sub) -> bool {
         G::Conj(_, gs) => amb_conj(gs, s),
         G::Disj(_, cs) => cs.iter().any(|c| amb_conj(c, s)),
         G::Conda(cs) => { for c in cs { if c.is_empty() { continue; } if ambiguous(&c[0], s) { return true; } let h = sem(&c[0], s); if !h.is_empty() { return h.iter().any(|a| amb_conj(&c[1..], a)); } } false }
+        G::For(c, b) => amb_conj(&G::unrolled(c, b), s),
         _ => false,
     }
 }
@@ -178,6 +212,11 @@ fn build_bfs(g: &G, vars: &[T]) -> Goal<U, E> {
         G::Condu(cs) => { let vs: Vec<Vec<Goal<U, E>>> = cs.iter().map(|c| sub(c)).collect(); let refs: Vec<&[Goal<U, E>]> = vs.iter().map(|v| &v[..]).collect(); condu(OperatorParam::new(&refs)) }
         G::OnceoFlat(gs) => { let v = sub(gs); let refs: Vec<&[Goal<U, E>]> = vec![&v[..]]; onceo(OperatorParam::new(&refs)) }
         G::Onceo(gs) => { let v = sub(gs); let refs: Vec<&[Goal<U, E>]> = v.iter().map(|g| std::slice::from_ref(g)).collect(); onceo(OperatorParam::new(&refs)) }
+        G::For(c, b) => {
+            let coll: Vec<T> = c.iter().map(|a| match a { A::V(v) => vars[*v].clone(), A::K(k) => LTerm::from(*k) }).collect();
+            let (body, outer): (G, Vec<T>) = ((**b).clone(), vars[..NV].to_vec());
+            everyg::<Vec<T>, U, E, Goal<U, E>>(ForOperatorParam::new(coll, Box::new(move |x: T| { let mut vs = outer.clone(); vs.push(x); build_bfs(&body, &vs) }))).cast_into()
+        }
     }
 }
 fn build_dfs(g: &G, vars: &[T]) -> DFSGoal<U, E> {
@@ -191,6 +230,11 @@ fn build_dfs(g: &G, vars: &[T]) -> DFSGoal<U, E> {
         G::Conj(form, gs) => { let v = sub(gs); match form { 0 => DFSConj::from_array(&v), 1 => DFSConj::from_vec(v), 2 => DFSConj::from_conjunctions(&[&v[..]]), _ => InferredConj::<U, E, DFSGoal<U, E>>::from_array(&v).cast_into() } }
         G::Disj(form, cs) => { let vs: Vec<Vec<DFSGoal<U, E>>> = cs.iter().map(|c| sub(c)).collect(); let refs: Vec<&[DFSGoal<U, E>]> = vs.iter().map(|v| &v[..]).collect();
             match form { 0 => Conde::from_conjunctions(&refs).cast_into(), _ => DFSDisj::from_conjunctions(&refs) } }
+        G::For(c, b) => {
+            let coll: Vec<T> = c.iter().map(|a| match a { A::V(v) => vars[*v].clone(), A::K(k) => LTerm::from(*k) }).collect();
+            let (body, outer): (G, Vec<T>) = ((**b).clone(), vars[..NV].to_vec());
+            everyg::<Vec<T>, U, E, DFSGoal<U, E>>(ForOperatorParam::new(coll, Box::new(move |x: T| { let mut vs = outer.clone(); vs.push(x); build_dfs(&body, &vs) }))).cast_into()
+        }
         _ => unreachable!(),
     }
 }
@@ -273,6 +317,7 @@ fn check(rep: &mut Report, g: &G) {
         }
     }
     rep.case("bfs-multiset", format!("bfs {}", inp));
+    if g.has_for() { rep.case("for-everyg", format!("bfs {}", inp)); }
     let gg = g.clone();
     match guard_timeout(move || run_real(&gg, false, 10_000), 10) {
         Err(e) if e == "TIMEOUT" => { rep.fail("bfs-multiset", inp.clone(), format!("{:?}", exp), "no result within 10 s: the search diverges on a finite program".into(), "diverges"); rep.print(); std::process::exit(0); }
@@ -297,6 +342,8 @@ fn check(rep: &mut Report, g: &G) {
                 } else {
                     let f = if g.bfs_only() { "committed-choice" } else { "bfs-multiset" };
                     rep.fail(f, inp.clone(), format!("{:?}", b), format!("{:?}", a), "multiset");
+                    // C12: the program contains a `for`; the reference has it unrolled into the explicit conjunction
+                    if g.has_for() { rep.fail("for-everyg", inp.clone(), format!("{:?}", b), format!("{:?}", a), "multiset"); }
                 }
             }
         }
@@ -315,13 +362,25 @@ fn leaf(r: &mut Rng) -> G {
         12 => G::Ne(vec![(A::V(r.below(NV)), op(r)), (A::V(r.below(NV)), op(r))]),
         _ => G::Eq(r.below(NV), (r.below(3) + 1) as isize) }
 }
+/// `for x in coll { body }`: 0..3 elements (variables and constants), a body that uses the loop variable (number 3)
+fn for_goal(r: &mut Rng) -> G {
+    let op = |r: &mut Rng| if r.below(2) == 0 { A::K((r.below(3) + 1) as isize) } else { A::V(r.below(NV)) };
+    let coll: Vec<A> = (0..r.below(4)).map(|_| op(r)).collect();
+    let atom = |r: &mut Rng| match r.below(4) { 0 => G::EqV(3, r.below(NV)), 1 => G::Ne(vec![(A::V(3), op(r))]), 2 => G::Ne(vec![(A::V(r.below(NV)), A::V(3))]), _ => G::Eq(3, (r.below(3) + 1) as isize) };
+    let body = match r.below(4) {
+        0 | 1 => atom(r),
+        2 => G::Disj(r.below(2) as u8, vec![vec![atom(r)], vec![leaf(r)]]),
+        _ => G::Conj(r.below(4) as u8, vec![atom(r), leaf(r)]),
+    };
+    G::For(coll, Box::new(body))
+}
 fn gen(r: &mut Rng, depth: usize, bfs: bool) -> G {
     if depth == 0 { return leaf(r); }
     let n = if bfs { 9 } else { 6 };
     match r.below(n) {
         0 | 1 => { let k = 1 + r.below(3); G::Conj(r.below(4) as u8, (0..k).map(|_| gen(r, depth - 1, bfs)).collect()) }
         2 | 3 | 4 => { let k = 1 + r.below(3); G::Disj(r.below(2) as u8, (0..k).map(|_| { let m = 1 + r.below(3); (0..m).map(|_| gen(r, depth - 1, bfs)).collect() }).collect()) }
-        5 => leaf(r),
+        5 => if r.below(3) == 0 { for_goal(r) } else { leaf(r) },
         6 => { let k = 1 + r.below(3); G::Conda((0..k).map(|_| { let m = 1 + r.below(3); (0..m).map(|_| gen(r, depth - 1, bfs)).collect() }).collect()) }
         7 => { let k = 1 + r.below(3); G::Condu((0..k).map(|_| { let m = 1 + r.below(3); (0..m).map(|_| gen(r, depth - 1, bfs)).collect() }).collect()) }
         _ => { let k = 1 + r.below(3); let gs: Vec<G> = (0..k).map(|_| gen(r, depth - 1, bfs)).collect(); if r.below(3) == 0 { G::OnceoFlat(gs) } else { G::Onceo(gs) } }
@@ -531,6 +590,15 @@ pub fn search(tier: &str, seed: u64, _only: Option<&str>) {
     check(&mut rep, &G::OnceoFlat(vec![choice(0), G::Eq(0, 2)]));
     check(&mut rep, &G::Onceo(vec![choice(0), choice(1)]));
     check(&mut rep, &G::Onceo(vec![G::Eq(0, 2), G::Eq(0, 2), G::Eq(1, 1)]));
+    // C12: `for` over 0..3 elements (an empty collection succeeds exactly once), ground / variable / shared elements
+    let fb = |b: G| Box::new(b);
+    for coll in [vec![], vec![A::K(1)], vec![A::K(1), A::K(2)], vec![A::V(0), A::V(1)], vec![A::V(0), A::K(2), A::V(0)], vec![A::K(3), A::V(1), A::V(2)]] {
+        check(&mut rep, &G::For(coll.clone(), fb(G::Ne(vec![(A::V(3), A::K(2))]))));
+        check(&mut rep, &G::For(coll.clone(), fb(G::EqV(3, 2))));
+        check(&mut rep, &G::For(coll.clone(), fb(G::Disj(0, vec![vec![G::Eq(3, 1)], vec![G::Eq(3, 2)]]))));
+        check(&mut rep, &G::Conj(0, vec![G::Eq(0, 1), G::For(coll.clone(), fb(G::Ne(vec![(A::V(1), A::V(3))]))), G::Eq(1, 2)]));
+        check(&mut rep, &G::Disj(0, vec![vec![G::For(coll.clone(), fb(G::Eq(3, 1)))], vec![G::Eq(2, 3)]]));
+    }
     let mut r = Rng(0x9E3779B97F4A7C15 ^ (seed.wrapping_mul(0x2545F4914F6CDD1D)) | 1);
     for i in 0..n {
         let depth = 1 + (i % 3);
@@ -570,6 +638,7 @@ impl<'a> P<'a> {
             "condu" => { self.eat(b'('); G::Condu(self.clauses()) }
             "onceo" => { self.eat(b'('); G::Onceo(self.list(b')')) }
             "onceoflat" => { self.eat(b'('); G::OnceoFlat(self.list(b')')) }
+            "for" => { self.eat(b'<'); let mut c = vec![]; while self.peek() != b'>' { c.push(self.operand()); self.eat(b';'); } self.eat(b'>'); self.eat(b'('); let b = self.goal(); self.eat(b')'); G::For(c, Box::new(b)) }
             _ => G::Fail,
         }
     }
